@@ -85,7 +85,7 @@ def run(ctx):
         for c in ok:
             found[c] += 1
 
-    reds = T.htable(["-mode", "reduce", "-n", 400 * mult, "-seed", ctx.seed])
+    reds = T.htable(["-mode", "reduce", "-n", 250 * mult, "-seed", ctx.seed])
     rc = T.coq_verdicts(ctx, "c11_reduce", [reduce_item(c) for c in reds], imports="Reduce ReduceSpec")
     for c, v in zip(reds, rc):
         dist["reduce:%s:%s:%d" % (c["class"], c["outcome"], v)] += 1
@@ -93,7 +93,7 @@ def run(ctx):
             ctx.violation({"kind": "Table.Reduce disagrees with the model" if v == 2 else "formatted string differs from the Gallina formatter", "case": c})
         elif v == 4:
             excuse(c, grouping_classes(c["in"], [k["b"] for k in c["cfg"] or []]), "Reduce: not one row per distinct key / wrong aggregate")
-    e2e = T.htable(["-mode", "e2e11", "-n", 300 * mult, "-seed", ctx.seed])
+    e2e = T.htable(["-mode", "e2e11", "-n", 200 * mult, "-seed", ctx.seed])
     ec = T.coq_verdicts(ctx, "c11_e2e", [e2e_item(c) for c in e2e], imports="Reduce ReduceSpec", shard=300)
     for c, v in zip(e2e, ec):
         dist["e2e:%s:%s:%d" % (c["shape"], c["res"]["outcome"], v)] += 1
